@@ -96,4 +96,18 @@ def model_d():
                                                     '%s|COLPAIR' % B: rng('S', 'A1:A2'), '%s|KONST' % B: num(2)}, 'sheets': [[B, 'S']]}
 
 
-MODELS = {'a': model_a, 'b': model_b, 'c': model_c, 'd': model_d}
+def model_e():
+    """an array-formula block B1:B4; a range that overlaps only its lower half (B3:C6, with unpopulated cells);
+    single elements of the block read directly."""
+    cells = {K('S', 'A%d' % r): const(('n', float(r))) for r in (1, 2, 3, 4)}
+    cells.update({
+        K('S', 'C3'): const(('n', 100.0)), K('S', 'C5'): const(('n', 200.0)),
+        K('S', 'D1'): fn('SUM', rng('S', 'B3:C6')),
+        K('S', 'D2'): op('+', cell('S', 'B1'), cell('S', 'B2')),
+        K('S', 'D3'): op('*', cell('S', 'B4'), num(2)),
+        K('S', 'D4'): fn('SUM', rng('S', 'B1:B4')),
+    })
+    return {'cells': cells, 'arrays': {K('S', 'B1:B4'): op('*', rng('S', 'A1:A4'), num(10))}, 'names': {}, 'sheets': [[B, 'S']]}
+
+
+MODELS = {'a': model_a, 'b': model_b, 'c': model_c, 'd': model_d, 'e': model_e}
